@@ -694,6 +694,9 @@ func (r *chainRun) buildTx(n *Node, st *CStep) *lpb.Transaction {
 	if abs(st.Via)%16 == 3 || (r.cfg.Prop == "C09" && abs(st.Via)%2 == 1) {
 		toAddr = XsimContract // fund the workload contract's own account
 	}
+	if abs(st.Via)%16 == 5 {
+		toAddr = XsimContract2 // ... and the second one, whose name the first one's is a prefix of
+	}
 	// amount: a fraction of the inputs
 	amt := new(big.Int).Mul(tot, big.NewInt(int64(1+abs(st.Amt)%4)))
 	amt.Div(amt, big.NewInt(5))
